@@ -121,6 +121,7 @@ def make_env(shape, variant, rng):
 
 
 _SHARED = []
+_ncall = [0]
 
 
 def call_impl(mode, shape, env):
@@ -132,6 +133,13 @@ def call_impl(mode, shape, env):
             _SHARED.append([])
         _SHARED[k][:] = l
     lists = _SHARED[:len(lists)]
+    # the hashes may come in any iterable the functions accept on the pinned tree (list, tuple, a single-pass iterator): the root is the same
+    _ncall[0] += 1
+    form = _ncall[0] % 3
+    if form == 1:
+        lists = [tuple(l) for l in lists]
+    elif form == 2:
+        lists = [iter(list(l)) for l in lists] if mode != 'oll' else (iter(list(l)) for l in list(lists))
     if mode == 'ol':
         return H.operation_list_hash(lists[0])
     if mode == 'oll':
